@@ -49,7 +49,7 @@ def check(w, tier, t0):
     if not r.ok:
         raise lib.Inconclusive("Migrate model run failed:\n" + (r.error or ""))
     states, trans = r.distinct, r.generated
-    n = 40 if tier == "quick" else 1000
+    n = 40 if tier == "quick" else 8000
     d = w.sub("run")
     events = []
     with ThreadPoolExecutor(max_workers=8) as ex:
